@@ -43,6 +43,7 @@ Proof.
   unfold sym_plan_of. intros H.
   destruct (assoc a sym_algs) as [[bb ks]|] eqn:Ea; try discriminate.
   destruct (negb (memZ (8 * zlen key) ks)); try discriminate.
+  destruct ((a =? CA_RC4) && (oeqZ mode BCM_CBC || oeqZ mode BCM_ECB || oeqZ mode BCM_GCM)) eqn:Erg; try discriminate.
   destruct (negb (oeqZ mode BCM_GCM) && is_some aad); try discriminate.
   destruct (oeqZ mode BCM_GCM && negb (if dec then is_some tag else is_some taglen)); try discriminate.
   match type of H with (match ?mr with _ => _ end) = _ => destruct mr as [e|mp] eqn:Em end; try discriminate.
@@ -106,6 +107,7 @@ Section Laws.
     unfold sym_plan_of. intros H Ht.
     destruct (assoc a sym_algs) as [[bb ks]|] eqn:Ea; try discriminate.
     destruct (negb (memZ (8 * zlen key) ks)) eqn:Ek; try discriminate.
+    destruct ((a =? CA_RC4) && (oeqZ mode BCM_CBC || oeqZ mode BCM_ECB || oeqZ mode BCM_GCM)) eqn:Erg; try discriminate.
     destruct (negb (oeqZ mode BCM_GCM) && is_some aad) eqn:Eaad; try discriminate.
     destruct (oeqZ mode BCM_GCM && negb (is_some taglen)) eqn:Etl; try discriminate.
     simpl in H.
@@ -145,6 +147,7 @@ Section Laws.
     unfold sym_plan_of. intros H.
     destruct (assoc a sym_algs) as [[bb ks]|] eqn:Ea; try discriminate.
     destruct (negb (memZ (8 * zlen key) ks)); try discriminate.
+    destruct ((a =? CA_RC4) && (oeqZ mode BCM_CBC || oeqZ mode BCM_ECB || oeqZ mode BCM_GCM)) eqn:Erg; try discriminate.
     destruct (negb (oeqZ mode BCM_GCM) && is_some aad); try discriminate.
     destruct (oeqZ mode BCM_GCM && negb (if dec then is_some tag else is_some taglen)); try discriminate.
     destruct (a =? CA_RC4).
@@ -285,8 +288,8 @@ Proof.
   pose proof (sym_plan_shape _ _ _ _ _ _ _ _ _ _ H) as (Sa & Sk & Saad & Sg & Spad & _ & (bb & ks & Eab & Sblk) & _).
   unfold sym_plan_of in H. rewrite Eab in H.
   destruct (negb (memZ (8 * zlen key) ks)); try discriminate.
+  assert (Erc : (a =? CA_RC4) = false) by lia. rewrite Erc in H. cbn [andb] in H.
   change (oeqZ (Some BCM_GCM) BCM_GCM) with true in *. cbn [negb andb] in H.
-  assert (Erc : (a =? CA_RC4) = false) by lia. rewrite Erc in H.
   assert (Em : assoc BCM_GCM cipher_modes = Some true) by (vm_compute; reflexivity). rewrite Em in H.
   split; [exact Saad|]. split; [rewrite Sg; reflexivity|]. split; [rewrite Spad; reflexivity|].
   split; [exact Sk|]. split.
@@ -302,6 +305,7 @@ Proof.
   unfold sym_plan_of. intros H Ha.
   destruct (assoc a sym_algs) as [[bb ks]|]; try discriminate.
   destruct (negb (memZ (8 * zlen key) ks)); try discriminate.
+  destruct ((a =? CA_RC4) && (oeqZ mode BCM_CBC || oeqZ mode BCM_ECB || oeqZ mode BCM_GCM)) eqn:Erg; try discriminate.
   rewrite Ha in H. destruct mode as [m|]; cbn in H; try discriminate.
   destruct (m =? BCM_GCM) eqn:E; cbn in H; try discriminate.
   apply Z.eqb_eq in E. now subst.
@@ -314,6 +318,7 @@ Proof.
   unfold sym_plan_of.
   destruct (assoc a sym_algs) as [[bb ks]|]; auto.
   destruct (negb (memZ (8 * zlen key) ks)); auto.
+  destruct ((a =? CA_RC4) && _); auto.
 Qed.
 
 (* decryption releases a plaintext only after the primitive accepted exactly the supplied (iv, aad, tag, ciphertext) *)
@@ -550,6 +555,7 @@ Proof.
   split.
   - unfold sym_plan_of in H. rewrite Eab in H.
     destruct (negb (memZ (8 * zlen key) ks)); try discriminate.
+    destruct ((a =? CA_RC4) && (oeqZ mode BCM_CBC || oeqZ mode BCM_ECB || oeqZ mode BCM_GCM)) eqn:Erg; try discriminate.
     destruct (negb (oeqZ mode BCM_GCM) && is_some aad); try discriminate.
     destruct (oeqZ mode BCM_GCM && negb (if dec then is_some tag else is_some taglen)); try discriminate.
     assert (Erc : (a =? CA_RC4) = false) by lia. rewrite Erc in H.
@@ -616,3 +622,74 @@ Proof.
   destruct dp; auto; unfold lib_der_stage;
     match goal with |- context [if ?b then _ else _] => destruct b end; discriminate.
 Qed.
+
+(* ------------------------------------------------------------------ fix 4ef300f: RC4 + CBC/ECB/GCM is InvalidField *)
+Lemma rc4_plan_shape dec key mode padm iv aad taglen tag sp :
+  sym_plan_of dec CA_RC4 key mode padm iv aad taglen tag = Ok sp ->
+  p_mode sp = MNone /\ p_pad sp = PNone /\ p_gcm sp = false.
+Proof.
+  unfold sym_plan_of. intros H.
+  destruct (assoc CA_RC4 sym_algs) as [[bb ks]|]; try discriminate.
+  destruct (negb (memZ (8 * zlen key) ks)); try discriminate.
+  rewrite Z.eqb_refl in H. cbn [andb] in H.
+  destruct (oeqZ mode BCM_CBC) eqn:E1; cbn [orb] in H; try discriminate.
+  destruct (oeqZ mode BCM_ECB) eqn:E2; cbn [orb] in H; try discriminate.
+  destruct (oeqZ mode BCM_GCM) eqn:E3; cbn [orb negb andb] in H; try discriminate.
+  destruct (is_some aad); cbn [andb] in H; try discriminate.
+  unfold pad_step_of in H. rewrite E1, E2 in H. cbn in H.
+  destruct dec; cbn in H; apply Ok_inj in H; subst sp; cbn; auto.
+Qed.
+
+Lemma rc4_rejects_block_modes dec key mode padm iv aad taglen tag :
+  (oeqZ mode BCM_CBC || oeqZ mode BCM_ECB || oeqZ mode BCM_GCM) = true ->
+  exists e, sym_plan_of dec CA_RC4 key mode padm iv aad taglen tag = Err e.
+Proof.
+  intros Hm. unfold sym_plan_of.
+  destruct (assoc CA_RC4 sym_algs) as [[bb ks]|]; eauto.
+  destruct (negb (memZ (8 * zlen key) ks)); eauto.
+  rewrite Z.eqb_refl, Hm. cbn. eauto.
+Qed.
+
+Local Opaque assoc assoc2 memZ.
+(* no plan that the engine's guards accept can end in a non-KMIP exception *)
+Lemma plan_stage_never_crashes dec a key mode padm iv aad taglen tag sp n :
+  sym_plan_of dec a key mode padm iv aad taglen tag = Ok sp -> lib_sym_stage dec sp n <> LCrash.
+Proof.
+  intros Hp. destruct (Z.eq_dec a CA_RC4) as [->|Hrc].
+  - destruct (rc4_plan_shape _ _ _ _ _ _ _ _ _ Hp) as (Hm & Hpad & Hg).
+    unfold lib_sym_stage, lib_sym_ok, lib_ctor_ok, lib_pad_crash, lib_cipher_ops_ok.
+    rewrite Hm, Hpad, Hg. cbn [mode_val].
+    set (K := match assoc2 (p_alg sp) (-1) lib_cipher_ok with Some ks => memZ (8 * zlen (p_key sp)) ks | None => false end).
+    destruct K; destruct dec; cbn; discriminate.
+  - destruct (non_rc4_plan_has_mode _ _ _ _ _ _ _ _ _ _ Hp Hrc) as [Hm Hb].
+    intros Hs. apply stage_crash_only_without_block_or_mode in Hs. lia.
+Qed.
+
+Section NoCrashAtAll.
+  Variable E : Z -> bytes -> Z -> option bytes -> option bytes -> bytes -> bytes * bytes.
+  Variable Dp : Z -> bytes -> Z -> option bytes -> option bytes -> option bytes -> bytes -> option bytes.
+  Variable urandom : Z -> bytes.
+
+  Lemma do_encrypt_never_crashes a key mode padm iv aad taglen msg :
+    do_encrypt E urandom a key mode padm iv aad taglen msg <> RCrash.
+  Proof.
+    unfold do_encrypt.
+    destruct (sym_plan_of false a key mode padm iv aad taglen None) as [e|sp] eqn:Hp; [discriminate|].
+    unfold run_sym_encrypt.
+    destruct (lib_sym_stage false sp (zlen msg)) eqn:Hs; try discriminate.
+    exfalso. eapply plan_stage_never_crashes; eauto.
+  Qed.
+
+  Lemma do_decrypt_never_crashes a key mode padm iv aad tag ct :
+    do_decrypt Dp urandom a key mode padm iv aad tag ct <> RCrash.
+  Proof.
+    unfold do_decrypt.
+    destruct (sym_plan_of true a key mode padm iv aad None tag) as [e|sp] eqn:Hp; [discriminate|].
+    unfold run_sym_decrypt.
+    destruct (lib_sym_stage true sp (zlen ct)) eqn:Hs; try discriminate.
+    - destruct (Dp _ _ _ _ _ _ _); try discriminate.
+      destruct (p_pad sp); try discriminate.
+      destruct (unpad _ _ _); discriminate.
+    - exfalso. eapply plan_stage_never_crashes; eauto.
+  Qed.
+End NoCrashAtAll.
